@@ -53,7 +53,11 @@
 //! ```
 
 use std::cell::RefCell;
+#[cfg(not(feature = "verif"))]
 use std::collections::HashMap;
+#[cfg(feature = "verif")]
+#[allow(unused_imports)]
+use crate::verif::{HashMap, MapNew};
 
 use crate::matrix::Matrix;
 use crate::set::HpoSet;
